@@ -420,7 +420,7 @@ def fam_lock(tier, base):
     trace = base + ".trace.ndjson"
     b = verif.build_driver("locks")
     t1, t2 = base + ".t1", base + ".t2"
-    verif.run_driver(b, "TestLockContention", env={"VERIF_TRACE": t1, "VERIF_RUNS": 2 if q else 16, "VERIF_CYCLES": 15 if q else 40}, timeout=7000)
+    verif.run_driver(b, "TestLockContention", env={"VERIF_TRACE": t1, "VERIF_RUNS": 2 if q else 16, "VERIF_CYCLES": 15 if q else 40, "VERIF_CROWDS": 3 if q else 12}, timeout=7000)
     verif.run_driver(b, "TestLockLoss", env={"VERIF_TRACE": t2, "VERIF_RUNS": 2 if q else 12}, timeout=7000)
     with open(trace, "w") as f:
         f.write(open(t1).read() + open(t2).read())
@@ -594,6 +594,12 @@ def fam_cluster(tier, base):
         d = json.loads(x)
         # deployments make 30-60 external calls: sample their placements; every other operation: all placements
         d["every"] = every if d["op"]["kind"] == "create" else 1
+        # a fault or crash is only dangerous at particular points: EVERY point for the AUTO / bound-request deployments,
+        # a sample for the other deployments (quick: no crash runs for those)
+        if d["op"]["kind"] == "create" and d["op"]["strategy"] == "AUTO" and d["op"]["req"] == "b":
+            d["every"] = 1
+        elif d["mode"] == "crash" and q:
+            continue
         sel.append(json.dumps(d))
     with open(inputs, "w") as f:
         f.write("\n".join(sel) + "\n")
